@@ -813,6 +813,41 @@ impl Wake for FlagWaker {
     }
 }
 
+/// A join waker whose `clone()` is slow (yields): `JoinHandle::poll` clones
+/// the waker inside its SETTING_WAKER critical section, so this stretches the
+/// window in which a completion can race a remote join. A waker clone may
+/// take arbitrarily long, so this is a legitimate environment.
+pub(crate) struct SlowWaker {
+    pub flag: Arc<FlagWaker>,
+    pub yields: u32,
+}
+
+pub(crate) fn slow_waker(flag: Arc<FlagWaker>, yields: u32) -> Waker {
+    use std::task::{RawWaker, RawWakerVTable};
+    unsafe fn clone(p: *const ()) -> RawWaker {
+        let a = unsafe { ManuallyDrop::new(Arc::from_raw(p as *const SlowWaker)) };
+        for _ in 0..a.yields {
+            std::thread::yield_now();
+        }
+        let b: Arc<SlowWaker> = (*a).clone();
+        RawWaker::new(Arc::into_raw(b) as *const (), &VT)
+    }
+    unsafe fn wake(p: *const ()) {
+        let a = unsafe { Arc::from_raw(p as *const SlowWaker) };
+        a.flag.wakes.fetch_add(1, SeqCst);
+    }
+    unsafe fn wake_by_ref(p: *const ()) {
+        let a = unsafe { ManuallyDrop::new(Arc::from_raw(p as *const SlowWaker)) };
+        a.flag.wakes.fetch_add(1, SeqCst);
+    }
+    unsafe fn drop_w(p: *const ()) {
+        drop(unsafe { Arc::from_raw(p as *const SlowWaker) });
+    }
+    static VT: RawWakerVTable = RawWakerVTable::new(clone, wake, wake_by_ref, drop_w);
+    let a = Arc::new(SlowWaker { flag, yields });
+    unsafe { Waker::from_raw(RawWaker::new(Arc::into_raw(a) as *const (), &VT)) }
+}
+
 // ---------------------------------------------------------------------------
 // main
 // ---------------------------------------------------------------------------
